@@ -250,7 +250,7 @@ func c20Run(tb rapid.TB, c c20Case) {
 		if n >= 2 {
 			for _, h := range c.Handlers {
 				if (h.Mut == "overwrite" || h.Mut == "all" || h.Mut == "reslice") && len(cm.Payload) > 0 {
-					if tf, _ := newTopicFilter(h.Filter); tf != nil && refMatch(refSplitLevels(h.Filter), refSplitLevels(cm.Topic)) {
+					if _, ferr := newTopicFilter(h.Filter); ferr == nil && refMatch(refSplitLevels(h.Filter), refSplitLevels(cm.Topic)) {
 						mutating++
 						break
 					}
